@@ -58,6 +58,31 @@ CLAIMS['C17'] = dict(
          'Exact reals (polynomial arithmetic). Python wrapper defaults outside. Trusted: clang lowering, IR interpreter (validated vs native), z3.',
     technique=TECH_A, engine='llir', ref='DESIGN.md section 3, C17')
 
+CLAIMS['C14'] = dict(
+    text='With symbolic time stamps (any spacing, duplicates, stamps on period boundaries), values (non-negative, negative, NaN) and maxgapsec, z3 '
+         'shows on every feasible path of c_var2h that each non-final period is missing when an overlapping interval is invalid or the data do not '
+         'cover it, present when every touching interval is valid, and then equal to the exact integral of the piecewise-linear interpolant '
+         '(rainfall: increments prorated by overlap) divided by the period; inputs are unchanged and the final period is missing.',
+    note='Bounds: 2-3 observations (4 thorough), 2-3 output periods (4 thorough), periods 1800/3600, first stamp in the hour before the origin, '
+         'increments <= 5 h. Stamps are real-valued stand-ins constrained by the consequences of integrality (superset). Exact reals. The pandas side of '
+         'the wrapper (index units, time zones) is outside; hstartsec/nvalh are tied to the stamps as dutils.var2h computes them.',
+    technique=TECH_A, engine='llir', ref='DESIGN.md section 3, C14')
+CLAIMS['C10'] = dict(
+    text='Kernel level: for all ensemble values exactly tied or more than the tolerance apart, z3 shows on every feasible path of c_ensrank (pooled '
+         'sort through the real comparator, tie sequences) that fmat equals the Weigel-Mason pooled mid-rank comparison and ranks equal 1 + sum of u, '
+         'hence depend only on the pooled order; c_ad_test sorts its buffer, rejects values outside [0,1] and NaN, and its statistic equals the '
+         'textbook formula on the sorted sample.',
+    note='Bounds: ensrank up to 2x2 and 3x1 quick (3x2, 2x3, 4x1 thorough), eps=1e-6; AD n<=3 (4 thorough). log uninterpreted; p-value routines stubbed '
+         '(p-values, Cramer-von Mises, alpha, pit(random=False) are outside: numeric tables / scipy). qsort = stable insertion sort (glibc qsort is stable).',
+    technique=TECH_A, engine='llir', ref='DESIGN.md section 3, C10')
+CLAIMS['C20'] = dict(
+    text='pareto_front kernel: with symbolic coordinates (finite or NaN) and both orientations z3 shows on every feasible path that a point is flagged '
+         'dominated iff another point is strictly better in every coordinate where both are non-missing, that complete data leave a non-dominated '
+         'point, and that reversing the orientation equals negating the data.',
+    note='Bounds: up to 3x2 / 4x1 points x dims quick, 4x2, 3x3, 5x1 thorough. standard_normal, box-plot and violin statistics are outside (pandas / '
+         'numpy percentile / KDE internals).',
+    technique=TECH_A, engine='llir', ref='DESIGN.md section 3, C20')
+
 PENDING = 'check not built yet in this session (planned, see DESIGN.md section 3)'
 NOT_APPLICABLE = {
     'C13': 'persistence is carried by numpy tofile/fromfile, dtype objects, zipfile and float repr: no arithmetic core a solver can be given; '
